@@ -154,7 +154,7 @@ class C05(Check):
             sig.update({k: v for k, v in desc.items()})
             viol.append({"sig": sig, "what": what, "detail": detail})
 
-        compiled = not (res.exit != 0 and "Did not compile" in res.err)
+        compiled = not (driver.compile_rejected(res))
         if not compiled:
             if static_ok:
                 return {"outcome": "static-reject-float-bitop", "nontrivial": False, "tags": ["static-reject"]}
